@@ -233,6 +233,14 @@ func c15RunList(c *core.Ctx, texts []string) {
 	if nl > 1 {
 		c.Event("rule_sets_split_over_several_lists", 1)
 	}
+	if c.Rng.Intn(3) == 0 {
+		// A list that holds no rule at all (empty, comments only, blank lines,
+		// only lines the parser rejects) in front of or between the others.
+		at := c.Rng.Intn(len(contents))
+		none := []string{"", "! comments only\n# nothing else\n", "\n\n", "##\n#@#\nexample.org##\n"}[c.Rng.Intn(4)]
+		contents = append(contents[:at], append([]string{none}, contents[at:]...)...)
+		c.Event("storages_with_a_list_without_rules_before_another_list", 1)
+	}
 	storage := util.Storage(contents...)
 	ce := urlfilter.NewCosmeticEngine(storage)
 	eng := urlfilter.NewEngine(util.Storage(contents...))
